@@ -191,12 +191,33 @@ func monitorStream(which string) StreamMonitor {
 					s.rebalances++
 				}
 				nReq := 0
+				anyStored := false
+				for vb := int(op.First); vb <= int(op.Last); vb++ {
+					if _, ok := s.store[uint16(vb)]; ok {
+						anyStored = true
+					}
+				}
 				for _, o := range outs {
 					if o.Kind != "openreq" {
 						continue
 					}
 					nReq++
 					off := *o.Off
+					// C02: the request is exactly the last persisted tuple / zeros / the current high seqno
+					var wantOff SOffset
+					if d, ok := s.store[o.Vb]; ok {
+						wantOff = SOffset{UUID: d.UUID, Seq: d.Seq, Start: d.Start, End: d.End}
+					} else if !anyStored && h.Cfg.Latest {
+						hi := op.Sv.High[o.Vb]
+						wantOff = SOffset{UUID: op.Sv.UUID[o.Vb], Seq: hi, Start: hi, End: hi}
+					}
+					wantOff.Latest = ^uint64(0)
+					if h.Cfg.Finite {
+						wantOff.Latest = op.Sv.High[o.Vb]
+					}
+					if off != wantOff {
+						viol("C02", "request-not-persisted-tuple", fmt.Sprintf("op %d: vb %d requested with %+v, the persisted checkpoint / reset rule gives %+v", i, o.Vb, off, wantOff), i)
+					}
 					s.tracked[o.Vb] = &off
 					s.resume[o.Vb] = off
 					want := ^uint64(0)
